@@ -1083,7 +1083,11 @@ func ruleEncryptDictTables(c *core.Ctx) {
 			return true
 		})
 		o.Shape(joinSet(vs) == "Integer(1),Integer(2),Integer(4),Integer(5)", "AsDict writes V values %s", joinSet(vs))
-		o.Require(joinSet(cfm) == "AESV2,AESV3", "AsDict writes CFM values %s, want AESV2 (V4) and AESV3 (V5)", joinSet(cfm))
+		if len(cfm) == 0 {
+			o.Unrec("the /CFM values AsDict writes are not literals at the dictionary entry (a table?): not decided")
+		} else {
+			o.Require(joinSet(cfm) == "AESV2,AESV3", "AsDict writes CFM values %s, want AESV2 (V4) and AESV3 (V5)", joinSet(cfm))
+		}
 		// reader's CFM cases
 		rcfm := map[string]bool{}
 		ast.Inspect(gc.Decl.Body, func(n ast.Node) bool {
